@@ -9,11 +9,25 @@ RULE = ("cases = (hc) pairs d1, d2 built text-only as d1 = U1*N0*U0^-1, d2 = U2*
         "(0..2 for i64/BigInt; includes 0-dimensional, no incoming, no outgoing and zero maps), random shapes with middle "
         "dimension 0..7, with_trans on and off, plus arbitrary small matrix pairs (d2*d1 != 0, exact comparison only); "
         "(cx) GenericChainComplex::generate(0..L, +-1, ..).homology() on complexes of 1..4 spaces incl. malformed row "
-        "counts; rings i64, i128, i32, BigInt, Ratio<i64>, Ratio<BigInt>, F2, F3, F5, Z[i], Z[w] (exact comparison of "
+        "counts; (mg) composition of coordinate maps: the same generated complexes g, but every summand carries a coordinate "
+        "map chosen among free / Summand::new(.., Trans::new(U, U^-1)) / two such steps joined by Summand::merge (reduced to "
+        "one factor) / Trans::new(U1,..).merged(Trans::new(U2,..)) (two factors, as reduced() leaves them), U random "
+        "unimodular with tracked inverse, at least one degree non-free; cb = ChainComplexBase::new(summands, d_deg, g.d); "
+        "per degree h = cb.compute_homology_at(i, true), then the three routes cb[i].clone().merge(h) (Trans::merge + "
+        "Trans::reduce), cb.homology_at(i) (merged, not reduced) and from_raw_gens(..).merge(cb[i]).merge(h) (merge of a "
+        "merged summand): exact comparison of rank, torsion, forward_mat/backward_mat of all three, gen(k), "
+        "vectorize_euc of the boundaries of g, devectorize(1,..,1), and the clauses on the implementation's output with "
+        "respect to the ORIGINAL complex g (generators are cycles of g, vectorize(gen k) = e_k, boundaries of g vanish "
+        "mod torsion, p*q = I, the three routes agree, same module as g.homology_at(i)); one case in six uses arbitrary "
+        "small matrices and non-inverse coordinate maps of arbitrary rank (exact comparison incl. panics, and agreement "
+        "of the routes); (rd) generate(..).reduced(), s = cr[i].clone(); s.merge(cr.compute_homology_at(i, true)): the "
+        "same clauses against the original complex and against cr.homology_at(i) (the elimination order is hash "
+        "dependent: only rank and number of torsion summands are compared with the model's homology of g); "
+        "rings i64, i128, i32, BigInt, Ratio<i64>, Ratio<BigInt>, F2, F3, F5, Z[i], Z[w] (exact comparison of "
         "rank, torsion, forward/backward matrices, generators, reduced coordinates of boundaries) and Q[x], F3[x] "
         "(property clauses on the implementation's output only); a case is non-trivial when the call returns, the "
-        "middle dimension is >= 1 and at least one differential is non-zero (hc) or the complex has >= 2 spaces (cx); "
-        "distinct = distinct case lines")
+        "middle dimension is >= 1 and at least one differential is non-zero (hc), the complex has >= 2 spaces (cx, rd), "
+        "or it is a valid complex with >= 2 spaces and a non-free summand (mg); distinct = distinct case lines")
 ASSUME = ["SNF contract: the theorems hold for every SNF routine meeting the specification of property C09 (D = P*A*Q, "
           "inverse pairs, diagonal, non-zero entries first, divisibility chain, zero input -> identity transformations); "
           "the executable model instantiates the routine with Model/Snf.v (+ Model/Lll.v preprocessing)",
@@ -21,7 +35,11 @@ ASSUME = ["SNF contract: the theorems hold for every SNF routine meeting the spe
           "the property clauses on the implementation's output (d2*q = 0, p*q = I, p*d1 = 0 mod tors) are evaluated with the "
           "library's own ring arithmetic",
           "machine-width overflow aborts (i32/i64/i128 panics where the unbounded model returns a value) are out of scope and counted, not flagged",
-          "sparse containers are represented by their dense contents (structural equality of SpVec with stored zeros is not observed)"]
+          "sparse containers are represented by their dense contents (structural equality of SpVec with stored zeros is not observed)",
+          "composition theorems (Properties/C07Merge.v) hold for Trans / Summand values satisfying the shape invariant that every "
+          "constructor of the API establishes (trans_ok / summand_ok, proved preserved by id, new, append, merged, reduce, "
+          "calculate, Summand::new); for ChainComplexBase::reduced() the retraction-by-chain-maps hypotheses of C07_merge_complex "
+          "are property C08's theorems and are not re-derived here (the rd cases evaluate the clauses on the implementation's output)"]
 
 MACHINE = {"i32", "i64", "i128", "gi64", "ei64", "q64"}
 
@@ -57,6 +75,10 @@ def clause_failures(case, impl):
     if t[0] == "hc" and t[3] != "1":
         # not a complex (d2*d1 != 0 in general): only the clauses that do not depend on it
         kv = {k: v for k, v in kv.items() if k in ("pq", "shape")}
+    if t[0] == "mg" and t[3] != "1":
+        # arbitrary matrices and coordinate maps (no inverse pairs, no complex): only the agreement of the three routes
+        # (Trans::merge + reduce against merged) is a theorem for them
+        kv = {k: v for k, v in kv.items() if k == "same"}
     return sorted(k for k, v in kv.items() if v == "0")
 
 
@@ -68,6 +90,9 @@ def nontrivial(case, impl):
         nt = int(t[6])
         c2 = int(t[7 + nt + 1])
         return t[3] == "1" and c2 >= 1 and (int(t[4]) + int(t[5]) > 0)
+    if t[0] == "mg":
+        # a valid complex with >= 2 spaces (at least one summand carries a non-trivial coordinate map by construction)
+        return t[3] == "1" and int(t[4]) >= 2
     return int(t[3]) >= 2
 
 
@@ -80,8 +105,13 @@ def scan(ctx):
         model = open(os.path.join(out, "model.txt")).read().splitlines()
     except OSError:
         return [], {}
-    extra, stats = [], {"overflow_aborts": 0, "panics": 0, "clause_evaluations": 0, "exact_comparisons": 0, "checker_only": 0}
+    extra, stats = [], {"overflow_aborts": 0, "panics": 0, "clause_evaluations": 0, "exact_comparisons": 0, "checker_only": 0,
+                        "merge_cases": 0, "merge_cases_arbitrary": 0, "reduced_merge_cases": 0}
     for c, a, b in zip(cases, impl, model):
+        if c.startswith("mg "):
+            stats["merge_cases" if c.split()[3] == "1" else "merge_cases_arbitrary"] += 1
+        elif c.startswith("rd "):
+            stats["reduced_merge_cases"] += 1
         if overflow_abort(c, a, b):
             stats["overflow_aborts"] += 1
         if a == "P":
@@ -113,6 +143,9 @@ def harmless(case, impl, model):
         # arbitrary matrices with d2*d1 != 0: outside the property's domain; only the clauses that do not depend on
         # being a complex are meaningful
         return kv.get("pq") == "1" and kv.get("shape") == "1"
+    if t[0] in ("mg", "rd"):
+        # the composition routes are mirrored statement by statement (mg) / compared on canonical observables only (rd)
+        return False
     if not kv or any(v != "1" for v in kv.values()):
         return False
     # rank and torsion must also agree with the model's (they are canonical)
@@ -123,10 +156,10 @@ def harmless(case, impl, model):
 
 def run(ctx):
     ctx.equal = equal
-    obl = C.coq_obligations(ctx.pid, ["Extract/ExtractC07.vo"], more_props=["C07Uct"])
+    obl = C.coq_obligations(ctx.pid, ["Extract/ExtractC07.vo"], more_props=["C07Uct", "C07Merge"])
     extra = {}
     if ctx.thorough:
-        extra.update(C.coqchk(ctx.pid, more_props=["C07Uct"]))
+        extra.update(C.coqchk(ctx.pid, more_props=["C07Uct", "C07Merge"]))
     corr = C.correspondence(ctx, "c07", nontrivial)
     viol, stats = scan(ctx)
     extra["c07_stats"] = stats
